@@ -7,7 +7,7 @@ import builtins
 from ..cfg import CFG
 from ..fdai import Unknown
 from ..loader import AnchorError, dotted, is_self_attr, parent, short, src, walk_no_nested
-from ..mayraise import total_subclass_test
+from ..mayraise import total_subclass_test, ctor_may_raise
 from ..resolve import Resolver
 from .mitomodel import table_entries
 from ..rules import attr_writes, cfg_of, guard_facts, guard_established, mentions_name, package_attr_writes, where
@@ -478,6 +478,8 @@ def _may_raise(n, fi, callee_summary, res):
                 continue
             if d == "hasattr" or (d == "getattr" and (len(x.args) >= 3 or (len(x.args) == 2 and (isinstance(x.args[1], ast.Constant) or res.closed_name(fi, x.args[1]))))):
                 continue      # attribute lookup by a name written in the source (dispatch table) or with a default
+            if ctor_may_raise(res, fi, x):
+                return True       # a record whose own __post_init__ can refuse the values it is given here
             tgts = res.resolve_call(fi, x)
             if tgts:
                 # constructors of plain data classes are total; other package callees by their own summary
